@@ -181,6 +181,7 @@ def run_case(case, res):
 
     if case["kind"] == "calib":
         a_t = wq.qt(case["act"])
+        cap = 60 if a_t.is_floating_point else 120  # the float8 activation queries rarely finish: reported as inconclusive
         mod = torch.nn.Linear(2, 1, dtype=dt)
         model = torch.nn.Sequential(mod)
         quantize(model, weights=wq.qt("qint8"), activations=a_t)
